@@ -42,8 +42,15 @@ Definition obs_eqb (a b : obs) : bool :=
 
 (* one call of the filter: arguments, the program text _exec_eval received
    (None: it was not reached) and what list(filt(xs, memory, zero)) did *)
+Inductive captured :=
+| NoProg                          (* _exec_eval was not called *)
+| Captured (g : gen_prog)         (* the text it received, parsed *)
+| Unparsed.                       (* text outside the grammar of the generator (or several calls) *)
+Definition captured_is (c : captured) (g : gen_prog) : bool :=
+  match c with Captured g' => gen_prog_eqb g' g | _ => false end.
+
 Record run1 := Run { r_mem : memarg; r_zero : Qc; r_xs : list Qc;
-                     r_prog : option gen_prog; r_obs : obs }.
+                     r_prog : captured; r_obs : obs }.
 
 (* a filter (constructor arguments + item assignments) and calls on it;
    c_init: the exception raised by the constructor, if any *)
@@ -60,9 +67,9 @@ Definition exn_name (e : exn) : string :=
 (* correspondence: same generated program, same outputs / same refusal *)
 Definition corr_run (f : filt) (r : run1) : bool :=
   match codegen f (r_zero r) with
-  | Err e => match r_prog r with None => true | Some _ => false end &&
+  | Err e => match r_prog r with NoProg => true | _ => false end &&
              obs_eqb (r_obs r) (ORaise 1 (exn_name e))
-  | Ok g => option_eqb gen_prog_eqb (r_prog r) (Some g) &&
+  | Ok g => captured_is (r_prog r) g &&
             obs_eqb (r_obs r)
                     (OOut (run_gen g (normalise_memory (mem_size f) (r_zero r) (r_mem r)) (r_zero r) (r_xs r)))
   end.
@@ -85,3 +92,9 @@ Definition holds_call (c : ccase) : bool :=
           forallb (fun r => sat_b (fst nd') (snd nd') (r_mem r) (r_zero r) (r_xs r) (r_obs r)) (c_runs c)
       end
   end.
+
+(* the callable memories used by the harness: asked for n items, such a callable
+   returns the n + more - less items  base + 10 n + i  (i = 0, 1, ...) *)
+Definition qnat (n : nat) : Qc := Q2Qc (inject_Z (Z.of_nat n)).
+Definition ramp (base : Qc) (more less : nat) (n : nat) : list Qc :=
+  map (fun i => (base + qnat 10 * qnat n + qnat i)%Qc) (seq 0 (n + more - less)).
